@@ -168,6 +168,24 @@ claim("C11",
       "extension payloads and stream fragmentation are outside.",
       "DESIGN.md §4 C11")
 
+# Round 5 additions to the claims above (appended to the claim text of the property).
+def extend(pid, text):
+    t, ref, note = CLAIMED[pid]
+    CLAIMED[pid] = (t.rstrip() + " " + text, ref, note)
+
+extend("C01", "Round 5: a buffer from the piece pool has exactly the requested length and holds only zero bytes (clear modelled), and the allocator's report of a missing file - on which the torrent's decision to trust the stored bitfield rests - carries this property too.")
+extend("C03", "Round 5: the read-cache key of a block spells out peer id, piece index and block number in fixed-width fields, so bytes cached for one block are never served for another.")
+extend("C04", "Round 5: the allocator's missing-file report (sticky over all files) carries this property too.")
+extend("C05", "Round 5: whole-program obligation intx.writable - every Put/Delete/CreateBucket/DeleteBucket of the resume database is made inside a function literal handed directly to (*bbolt.DB).Update or Batch (or to the Resumer.update wrapper, itself checked), i.e. inside one writable transaction.")
+extend("C07", "Round 5: the path components examined for '..' are the ones the paths are built from (the UTF-8 keys are substituted before the first component is examined); the name-cleaning stand-in also enumerates name.utf-8 / path.utf-8 keys.")
+extend("C11", "Round 5: a piece block that arrives in several reads, with the read deadline passing any number of times, is assembled in stream order (every read continues where the bytes received so far end) and is complete when readPiece succeeds.")
+extend("C12", "Round 5: the initial payload announced in the MSE handshake is read completely (io.CopyN's count equals the announced length) before the reader that replays it is built.")
+extend("C14", "Round 5: the move handler asks for a record to be loaded onto a reserved port only with the port it took from the pool and wrote into that record; database changes only inside writable transactions (intx.writable); bounded stand-in for moves between sessions (labelled, not counted).")
+extend("C15", "Round 5: a member of a tier is marked as having accepted an announce exactly when its own Announce returned without error (not on a cancelled or failed attempt).")
+extend("C16", "Round 5: UDP transaction matching is now inside - over the transport's run loop the map invariant transactions[k].id == k holds, a datagram is handed to exactly the transaction whose id its header carries, the part after the header is sliced only from a datagram that holds a whole header (binary.Read's success is an assumed contract), and a datagram reaches the run loop as its own copy, not as a view of the read buffer.")
+extend("C17", "Round 5: the read cache never exceeds its configured size - room is made for the whole new value before it is counted, for every number of evictions (makeRoom, removeItem, handleNewItem; the representation invariant 'size is the sum of the listed values' and the deferred run of the expiry function are listed assumptions).")
+extend("C18", "Round 5: bounded stand-in (labelled, not counted) for the segment tree and the CIDR range: real tree against a linear scan for all lists of up to 3 ranges over a 7-value domain at three bases, real blocklist against net.IPNet.Contains for all lists of up to 2 of 40 CIDR rules.")
+
 na("C10", "liveness/progress over unbounded schedules of several goroutines: a function contract cannot state fairness or progress measures (DESIGN.md §4 C10)")
 na("C20", "data races and lock-ups quantify over schedules; the contracts are sequential and assume the single-owner discipline C20 asks to prove (DESIGN.md §4 C20)")
 for p in ["C01", "C02", "C04", "C05", "C06", "C07", "C08", "C09", "C11", "C12", "C13", "C14", "C15", "C17", "C18", "C19"]:
